@@ -122,6 +122,8 @@ def verify(body, inputs_of=None, replay=None, check_side=True, timeout_ms=30000,
             if isinstance(g, Goal):
                 g = [g]
             goals.extend(g)
+            for msg in getattr(c, "breaches", []):
+                goals.append(Goal("library contract used outside its precondition: " + msg, False))
             if check_side:
                 for (label, term, pclen) in c.side:
                     goals.append(Goal("side:" + label, sym.SBool(term)))
